@@ -25,10 +25,24 @@ def pair (a b : List Bytes) : String :=
     let bVal := match fb with | some lv => lv.value | none => -1
     s!"samekey={b2i sameKey} samedatum={b2i sameDatum} va={va} bexp={bExp} bpresent={b2i bPresent} bval={bVal} n={m6.lvs.length}"
 
+/-- `w` lookups of the same new tuple, in any order (they are all the same call) -/
+def conc (a : List Bytes) (w : Nat) : String :=
+  let m0 : Metric Int := { nkeys := a.length }
+  let step := fun (acc : Metric Int × List Nat) (_ : Nat) =>
+    match getDatum acc.1 0 a with
+    | .ok (m, id) => (updateDatum m id (fun v => v + 1), if acc.2.contains id then acc.2 else id :: acc.2)
+    | .error _ => acc
+  let r := (List.range w).foldl step (m0, [])
+  let sum := match find r.1 a with | some lv => lv.value | none => 0
+  s!"n={r.1.lvs.length} distinct={r.2.length} sum={sum}"
+
 def handle (f : List String) : String :=
   match f with
   | ["key", t] => match parseTuple t with
       | some t => Hex.encode (Key.encode t)
+      | none => "BAD-CASE"
+  | ["conc", a, w, _] => match parseTuple a with
+      | some a => conc a w.toNat!
       | none => "BAD-CASE"
   | ["pair", a, b] => match parseTuple a, parseTuple b with
       | some a, some b => pair a b
